@@ -44,8 +44,15 @@ theorem field_values_eq (a : FVAtoms) : Extracted.fvCore a = fvCore a := by
   cases f <;> cases a1 <;> cases a2 <;> cases a3 <;> cases a4 <;>
     cases b1 <;> cases b2 <;> cases b3 <;> cases b4 <;> rfl
 
-theorem values_eq : Extracted.valuesChanging = valuesChanging ∧ Extracted.valuesOther = valuesOther := by
-  decide
+/-- `current_only = cause.old is None and not getattr(handler, 'field_needs_change', False)` (/repo bd6cd41) -/
+theorem current_only_eq (a : CurAtoms) : Extracted.currentOnlyCore a = currentOnlyCore a := by
+  rcases a with ⟨x, y⟩; cases x <;> cases y <;> rfl
+
+/-- `values = [new] if current_only else [new, old]` for changing causes, `[val]` otherwise -/
+theorem values_eq :
+    (∀ b, Extracted.valuesChanging b = valuesChanging b) ∧ Extracted.valuesOther = valuesOther := by
+  refine ⟨fun b => ?_, by decide⟩
+  cases b <;> decide
 
 theorem change_eq (a : ChangeAtoms) : Extracted.changeCore a = changeCore a := by
   rcases a with ⟨x, y⟩; cases x <;> cases y <;> rfl
@@ -93,9 +100,12 @@ theorem release_eq (a : ReleaseAtoms) : Extracted.releaseCore a = releaseCore a 
 theorem early_exit_eq (a : ExitAtoms) : Extracted.earlyExitCore a = earlyExitCore a := by
   rcases a with ⟨x, y, z⟩; cases x <;> cases y <;> cases z <;> rfl
 
+/-- the loop body of `ChangingRegistry.iter_handlers`, incl. the `handler.field_needs_change` atom of
+    the field-handlers-on-deletion skip (/repo 17e5c42) -/
 theorem iter_changing_eq (a : ChgAtoms) : Extracted.selChangingCore a = selChangingCore a := by
-  rcases a with ⟨a1, a2, a3, a4, a5, a6, a7, a8⟩
-  cases a1 <;> cases a2 <;> cases a3 <;> cases a4 <;> cases a5 <;> cases a6 <;> cases a7 <;> cases a8 <;> rfl
+  rcases a with ⟨a1, a2, a3, a4, a5, a6, a7, a8, a9⟩
+  cases a1 <;> cases a2 <;> cases a3 <;> cases a4 <;> cases a5 <;> cases a6 <;> cases a7 <;> cases a8 <;>
+    cases a9 <;> rfl
 
 theorem resumed_filter_eq (a : ResumedAtoms) : Extracted.resumedKeepCore a = resumedKeepCore a := by
   rcases a with ⟨x, y⟩; cases x <;> cases y <;> rfl
